@@ -18,8 +18,10 @@ LEVEL = ('decides code-shape clauses of the FlatZinc front-end: no index is used
          ' set_in_reif (F8). Domain::merge is the intersection of the two domains for every variant '
          'pair, and the clauses posted for set_in_reif over an interval mean r ⇔ lb ≤ x ≤ ub (F9/F10, '
          'decided on small windows); nothing is selected from one side before two parallel sequences '
-         'are zipped (F11). Does not decide the meaning of each decomposition, search annotations or '
-         'output projection')
+         'are zipped (F11). the arithmetic builders the builtins map to mean what they say (F12 = '
+         "C09-R10) and the ten Boolean builtins post constraints with the builtin's truth table (F13 "
+         'BOOLFORM). Does not decide the meaning of each decomposition, search annotations or output '
+         'projection')
 TECHNIQUE = "static analysis: table recovery from the name match, stale-index / cast / arity / divisor-guard rules over rustc MIR"
 
 WIDTH = {"i8": 8, "u8": 8, "i16": 16, "u16": 16, "i32": 32, "u32": 32, "i64": 64, "u64": 64,
